@@ -4,7 +4,7 @@
 //! trusted: env: secp256k1 is uninterpreted: secret keys, public keys and scalars carry abstract ids; pt(k) is the public key of k, smul / sadd and pmul / padd the tweak operations on secret and public keys, ser the 33-byte serialization, scalar_of the scalar read from 32 bytes, key_bytes the bytes of a secret key; Sha256's engine is a stub that records the concatenation of its inputs in a ghost field, Sha256::from_engine(..).to_byte_array() is the uninterpreted sha256_spec of those; `.expect(msg)` on the tweak results is vstd's Result::expect
 //! trusted: axioms (external_body proof fns, the group homomorphism pt): pt(smul(k, t)) == pmul(pt(k), t); pt(sadd(k, t)) == padd(pt(k), pt_of_scalar(t)); scalar_of(key_bytes(k)) names k itself (pt_of_scalar(scalar_of(key_bytes(k))) == pt(k))
 //! assume: the operations the source `expect`s never to fail do not fail: a SHA256 output is a valid scalar, multiplying a key by a hash succeeds, and the final addition is not the point at infinity (probability about 2^-128 each; the source says the same in its expect messages)
-//! trusted: env (signer): InMemorySigner / ChannelTransactionParameters / ChannelPublicKeys are field skeletons of the real structs; DelayedPaymentKey::from_basepoint, get_revokeable_redeemscript, SighashCache::p2wsh_signature_hash and sign_with_aux_rand are external_body with uninterpreted results (delayed_key_of, revokeable_script, sighash_of, ecdsa_sign); R8: `hash_to_message!(&X.unwrap()[..])` is a macro over Message::from_digest_slice: the unit defines the macro as the external_body function to_message (the message is the sighash); R10: `assert!(c, "msg")` is written `assert!(c)`... see the rw directives; the trait method is verified as an inherent method of InMemorySigner
+//! trusted: env (signer): InMemorySigner / ChannelTransactionParameters / ChannelPublicKeys are field skeletons of the real structs; DelayedPaymentKey::from_basepoint, get_revokeable_redeemscript, SighashCache::p2wsh_signature_hash and sign_with_aux_rand are external_body with uninterpreted results (delayed_key_of, revokeable_script, sighash_of, ecdsa_sign); R8: `hash_to_message!(&X.unwrap()[..])` (a macro over Message::from_digest_slice) is written `hash_to_message!(X.unwrap().as_digest())` and the unit defines the macro as the function to_message (the message is the sighash); the message of `assert!(c, "msg")` is dropped by the extractor (the assertion stays as an obligation); R4: module prefixes chan_utils:: / sighash:: stripped; the trait methods are verified as inherent methods of InMemorySigner; sign_justice_revoked_htlc: HtlcKey::from_basepoint and get_htlc_redeemscript_with_explicit_keys external_body (uninterpreted derived_key / htlc_script)
 //! assume: the signer's revocation_base_key is the secret of the holder_pubkeys.revocation_basepoint in the channel parameters it is given (how channel keys are set up)
 use vstd::prelude::*;
 macro_rules! hash_to_message { ($slice: expr) => { to_message($slice) } }
@@ -106,6 +106,115 @@ impl RevocationKey {
     countersignatory_basepoint.to_public_key().mul_tweak(&secp_ctx, &Scalar::from_be_bytes(rev_append_commit_hash_key).unwrap())
 //@with
     countersignatory_basepoint.to_public_key().mul_tweak(&secp_ctx, &Scalar::from_be_bytes(commit_append_rev_hash_key).unwrap())
+//@end
+}
+// ---- justice signing (InMemorySigner) ------------------------------------------------------------------
+pub struct DelayedPaymentBasepoint(pub PublicKey);
+pub struct HtlcBasepoint(pub PublicKey);
+pub struct DelayedPaymentKey(pub PublicKey);
+pub struct HtlcKey(pub PublicKey);
+// BOLT 3 pubkey = basepoint + SHA256(per_commitment_point || basepoint) * G (derive_public_key; uninterpreted here)
+pub uninterp spec fn derived_key(basepoint: u64, per_commitment_point: u64) -> u64;
+impl DelayedPaymentKey { #[verifier::external_body] pub fn from_basepoint(ctx: &Secp256k1, bp: &DelayedPaymentBasepoint, pcp: &PublicKey) -> (r: Self) ensures r.0.id == derived_key(bp.0.id, pcp.id) { unimplemented!() } }
+impl HtlcKey { #[verifier::external_body] pub fn from_basepoint(ctx: &Secp256k1, bp: &HtlcBasepoint, pcp: &PublicKey) -> (r: Self) ensures r.0.id == derived_key(bp.0.id, pcp.id) { unimplemented!() } }
+pub struct ChannelPublicKeys { pub funding_pubkey: PublicKey, pub revocation_basepoint: RevocationBasepoint, pub payment_point: PublicKey, pub delayed_payment_basepoint: DelayedPaymentBasepoint, pub htlc_basepoint: HtlcBasepoint }
+pub struct CounterpartyChannelTransactionParameters { pub pubkeys: ChannelPublicKeys, pub selected_contest_delay: u16 }
+pub struct ChannelTypeFeatures { pub id: u64 }
+pub struct ChannelTransactionParameters { pub holder_pubkeys: ChannelPublicKeys, pub holder_selected_contest_delay: u16, pub counterparty_parameters: Option<CounterpartyChannelTransactionParameters>, pub channel_type_features: ChannelTypeFeatures }
+impl ChannelTransactionParameters {
+    #[verifier::external_body] pub fn is_populated(&self) -> (r: bool) ensures r == (self.counterparty_parameters is Some) { unimplemented!() }
+    #[verifier::external_body] pub fn counterparty_pubkeys(&self) -> (r: Option<&ChannelPublicKeys>)
+        ensures r is Some == (self.counterparty_parameters is Some), r is Some ==> *r->Some_0 == self.counterparty_parameters->Some_0.pubkeys { unimplemented!() }
+}
+pub struct ScriptBuf { pub id: u64 }
+pub uninterp spec fn revokeable_script(revocation_key: u64, contest_delay: u16, delayed_key: u64) -> u64;
+pub uninterp spec fn htlc_script(htlc: HTLCOutputInCommitment, ct: u64, broadcaster_htlc_key: u64, countersignatory_htlc_key: u64, revocation_key: u64) -> u64;
+#[verifier::external_body] pub fn get_revokeable_redeemscript(revocation_key: &RevocationKey, contest_delay: u16, broadcaster_delayed_payment_key: &DelayedPaymentKey) -> (r: ScriptBuf)
+    ensures r.id == revokeable_script(revocation_key.0.id, contest_delay, broadcaster_delayed_payment_key.0.id) { unimplemented!() }
+pub struct HTLCOutputInCommitment { pub offered: bool, pub amount_msat: u64, pub cltv_expiry: u32, pub payment_hash: u64, pub transaction_output_index: Option<u32> }
+#[verifier::external_body] pub fn get_htlc_redeemscript_with_explicit_keys(htlc: &HTLCOutputInCommitment, channel_type_features: &ChannelTypeFeatures, broadcaster_htlc_key: &HtlcKey, countersignatory_htlc_key: &HtlcKey, revocation_key: &RevocationKey) -> (r: ScriptBuf)
+    ensures r.id == htlc_script(*htlc, channel_type_features.id, broadcaster_htlc_key.0.id, countersignatory_htlc_key.0.id, revocation_key.0.id) { unimplemented!() }
+pub struct Transaction { pub id: u64 }
+pub struct Amount(pub u64);
+impl Amount { pub fn from_sat(s: u64) -> (r: Amount) ensures r.0 == s { Amount(s) } }
+pub enum EcdsaSighashType { All, SinglePlusAnyoneCanPay }
+pub struct SighashCache { pub tx: u64 }
+pub struct Digest { pub id: u64 }
+pub struct SegwitV0Sighash { pub id: u64 }
+impl SegwitV0Sighash { pub fn as_digest(self) -> (r: Digest) ensures r.id == self.id { Digest { id: self.id } } }
+pub uninterp spec fn sighash_of(tx: u64, input: usize, script: u64, amount: u64, all: bool) -> u64;
+impl SighashCache {
+    pub fn new(tx: &Transaction) -> (r: SighashCache) ensures r.tx == tx.id { SighashCache { tx: tx.id } }
+    #[verifier::external_body] pub fn p2wsh_signature_hash(&mut self, input: usize, script: &ScriptBuf, amount: Amount, ty: EcdsaSighashType) -> (r: Result<SegwitV0Sighash, SecpError>)
+        ensures final(self).tx == old(self).tx, r is Ok, r->Ok_0.id == sighash_of(old(self).tx, input, script.id, amount.0, ty is All) { unimplemented!() }
+}
+pub struct Message { pub id: u64 }
+pub fn to_message(d: Digest) -> (r: Message) ensures r.id == d.id { Message { id: d.id } }
+pub struct Signature { pub id: u64 }
+pub uninterp spec fn ecdsa_sign(msg: u64, key: u64) -> u64;
+#[verifier::external_body] pub fn sign_with_aux_rand<ES>(ctx: &Secp256k1, msg: &Message, sk: &SecretKey, entropy_source: &ES) -> (r: Signature)
+    ensures r.id == ecdsa_sign(msg.id, sk.id) { unimplemented!() }
+//@const lightning/src/sign/mod.rs MISSING_PARAMS_ERR
+pub struct InMemorySigner { pub revocation_base_key: SecretKey }
+// the to_local script of the counterparty's (revoked) commitment as BOLT 3 builds it on our side: revocation key from OUR basepoint and THEIR per-commitment point, the delay WE imposed, THEIR delayed-payment key
+pub open spec fn revoked_to_local_script(p: ChannelTransactionParameters, per_commitment_point: u64) -> u64 {
+    revokeable_script(revocation_pubkey_spec(p.holder_pubkeys.revocation_basepoint.0.id, per_commitment_point), p.holder_selected_contest_delay,
+        derived_key(p.counterparty_parameters->Some_0.pubkeys.delayed_payment_basepoint.0.id, per_commitment_point))
+}
+pub open spec fn revoked_htlc_script(p: ChannelTransactionParameters, htlc: HTLCOutputInCommitment, per_commitment_point: u64) -> u64 {
+    htlc_script(htlc, p.channel_type_features.id, derived_key(p.counterparty_parameters->Some_0.pubkeys.htlc_basepoint.0.id, per_commitment_point),
+        derived_key(p.holder_pubkeys.htlc_basepoint.0.id, per_commitment_point), revocation_pubkey_spec(p.holder_pubkeys.revocation_basepoint.0.id, per_commitment_point))
+}
+impl InMemorySigner {
+//@extract lightning/src/sign/mod.rs :: impl EcdsaChannelSigner for InMemorySigner :: fn sign_justice_revoked_output
+//@strip chan_utils sighash
+//@rw R5
+    secp_ctx: &Secp256k1<secp256k1::All>,
+//@with
+    secp_ctx: &Secp256k1,
+//@rw R8
+    hash_to_message!( &sighash_parts .p2wsh_signature_hash($args:any) .unwrap()[..] )
+//@with
+    hash_to_message!( sighash_parts .p2wsh_signature_hash($args) .unwrap().as_digest() )
+//@ret r
+//@requires
+    channel_parameters.counterparty_parameters is Some,
+//@ensures P C06 the-justice-signature-for-the-revoked-balance-output-is-made-with-the-revocation-private-key-over-that-outputs-own-script-and-amount
+    r is Ok,
+    r->Ok_0.id == ecdsa_sign(sighash_of(justice_tx.id, input, revoked_to_local_script(*channel_parameters, pt(per_commitment_key.id)), amount, true),
+        revocation_privkey_spec(self.revocation_base_key.id, per_commitment_key.id)),
+    channel_parameters.holder_pubkeys.revocation_basepoint.0.id == pt(self.revocation_base_key.id) ==>
+        pt(revocation_privkey_spec(self.revocation_base_key.id, per_commitment_key.id)) == revocation_pubkey_spec(channel_parameters.holder_pubkeys.revocation_basepoint.0.id, pt(per_commitment_key.id)),
+//@mutant script_built_with_the_delay_the_counterparty_chose
+    let holder_selected_contest_delay = channel_parameters.holder_selected_contest_delay;
+//@with
+    let holder_selected_contest_delay = channel_parameters.counterparty_parameters.as_ref().unwrap().selected_contest_delay;
+//@mutant script_built_with_our_own_delayed_key
+    &counterparty_keys.delayed_payment_basepoint,
+//@with
+    &channel_parameters.holder_pubkeys.delayed_payment_basepoint,
+//@end
+//@extract lightning/src/sign/mod.rs :: impl EcdsaChannelSigner for InMemorySigner :: fn sign_justice_revoked_htlc
+//@strip chan_utils sighash
+//@rw R5
+    secp_ctx: &Secp256k1<secp256k1::All>,
+//@with
+    secp_ctx: &Secp256k1,
+//@rw R8
+    hash_to_message!( &sighash_parts .p2wsh_signature_hash($args:any) .unwrap()[..] )
+//@with
+    hash_to_message!( sighash_parts .p2wsh_signature_hash($args) .unwrap().as_digest() )
+//@ret r
+//@requires
+    channel_parameters.counterparty_parameters is Some,
+//@ensures P C06 the-justice-signature-for-a-revoked-htlc-output-is-made-with-the-revocation-private-key-over-that-htlcs-own-script-and-amount
+    r is Ok,
+    r->Ok_0.id == ecdsa_sign(sighash_of(justice_tx.id, input, revoked_htlc_script(*channel_parameters, *htlc, pt(per_commitment_key.id)), amount, true),
+        revocation_privkey_spec(self.revocation_base_key.id, per_commitment_key.id)),
+//@mutant htlc_keys_swapped
+    &counterparty_htlcpubkey, &holder_htlcpubkey,
+//@with
+    &holder_htlcpubkey, &counterparty_htlcpubkey,
 //@end
 }
 }
